@@ -17,13 +17,13 @@ ENTRIES = [
 
 
 def run(ctx):
-    E.rule_m1(ctx)
-    E.rule_m2(ctx)
-    E.rule_m3(ctx)
-    n1(ctx, ["geometry_tools/representation.py", "geometry_tools/automata/fsa.py"])
-    CA.rule_c2(ctx, "Representation")
-    E.rule_m4(ctx)
-    u1(ctx, ENTRIES, min_functions=10)
+    ctx.do(E.rule_m1)
+    ctx.do(E.rule_m2)
+    ctx.do(E.rule_m3)
+    ctx.do(n1, ["geometry_tools/representation.py", "geometry_tools/automata/fsa.py"])
+    ctx.do(CA.rule_c2, "Representation")
+    ctx.do(E.rule_m4)
+    ctx.do(u1, ENTRIES, min_functions=10)
     ctx.r.assume("equality of the returned word set with the automaton's "
                  "language, free-group uniqueness and memo reuse across "
                  "calls with different options are not decided")
